@@ -92,13 +92,28 @@ type workerProc struct {
 }
 
 type tailBuffer struct {
-	mu  sync.Mutex
-	buf []byte
+	mu   sync.Mutex
+	head []byte // the beginning of stderr: a fatal error announces itself first
+	buf  []byte
+}
+
+// Head returns the first lines written (up to 20).
+func (t *tailBuffer) Head() string {
+	t.mu.Lock()
+	defer t.mu.Unlock()
+	ls := strings.Split(string(t.head), "\n")
+	if len(ls) > 20 {
+		ls = ls[:20]
+	}
+	return strings.Join(ls, " | ")
 }
 
 func (t *tailBuffer) Write(p []byte) (int, error) {
 	t.mu.Lock()
 	defer t.mu.Unlock()
+	if len(t.head) < 4000 {
+		t.head = append(t.head, p...)
+	}
 	t.buf = append(t.buf, p...)
 	if len(t.buf) > 8000 {
 		t.buf = t.buf[len(t.buf)-8000:]
@@ -196,7 +211,7 @@ func (w *workerProc) ask(prop string, c Case) (string, error) {
 			if w.cmd.ProcessState != nil {
 				st = w.cmd.ProcessState.String()
 			}
-			return "", errWorkerDied{st + " | " + lastLines(w.tail.String(), 25)}
+			return "", errWorkerDied{st + " | " + w.tail.Head()}
 		}
 		line := strings.TrimRight(r.line, "\n")
 		if strings.HasPrefix(line, "OK ") {
